@@ -86,7 +86,7 @@ def check_cfg(ctx, fx, cfg):
             if t.get("callee") != "futures_channel::oneshot::channel":
                 continue
             # the termination channel (its sender becomes the StopNotifier) is not a response slot: R02.3 covers it
-            if any(s["k"] == "agg" and s.get("def") == "context::StopNotifier" for s in sinks(b, t["dest"][0])):
+            if any(s["k"] == "agg" and s.get("def") == "context::StopNotifier" for s in graph.value_sinks(fx, b, t["dest"][0])):
                 n_term += 1
                 continue
             n_slots += 1
@@ -158,7 +158,7 @@ def check_cfg(ctx, fx, cfg):
                     if not all(p.kind == "call" and p.site == (bi,) for p in pr):
                         good = False
             ctx.require(good, "R02.1", inst + ":ok-from-receiver", "Ok(..) returned by a call must be the value received on this call's response channel", fn=f["def"], site=t["l"])
-    ctx.floor("R02.1", "call-like sites with a response slot (%s)" % cfg, n_slots, 3)
+    ctx.floor("R02.1", "call-like sites with a response slot (%s)" % cfg, n_slots, 1)  # call and ping may share one slot-creating helper
     ctx.require(n_term == 1, "R02.1", "termination-channel-birth@" + cfg, "expected exactly one oneshot channel whose sender becomes the StopNotifier, found %d" % n_term, site="crate", detail=n_term)
     # R02.2 / R02.3
     for f, kind in loops.find_loops(fx):
@@ -259,4 +259,4 @@ def check_cfg(ctx, fx, cfg):
                 ctx.ok("R02.5", inst, loc, {"accepted": acc[0], "consumers": sorted(cls)})
             else:
                 ctx.viol("R02.5", inst, "a fallible result is discarded (%s): errors must be propagated or handled" % (sorted(cls) or ["dropped"]), fn=f["def"], site=loc)
-    ctx.floor("R02.5", "fallible internal results (%s)" % cfg, n_res, 25)
+    ctx.floor("R02.5", "fallible internal results (%s)" % cfg, n_res, 15)
